@@ -74,7 +74,7 @@ def strategy(tier):
 
 
 def budget(tier):
-    return 2000 if tier == "quick" else 200000
+    return 2000 if tier == "quick" else 150000
 
 
 def _contrast(P):
